@@ -131,8 +131,11 @@ def unlock(ctx, P):
     if bb is not None:
         names = [t['f'].get('fn', '') for i, t in bb.calls()]
         need = ['Serialize::to_writer', 'Hkdf', 'Tag::encode']
-        ok = any(n.endswith('Serialize::to_writer') for n in names) and any('hkdf' in n.lower() for n in names)
-        ctx.check(P + ':usage-aead:binds-public-key', 'R-seq', 's2k_usage_aead serialises the public key into the associated data and derives through HKDF', ok,
+        oks = ok_exit_blocks(bb)
+        ser = [i for i, t in bb.calls(r'ser::Serialize::to_writer$') if has_origin(bb.operand_origins(t['args'][0]), r'param:3$')]
+        every, _ = must_pass(bb, oks, ser) if ser else (False, None)
+        ok = every and any('hkdf' in n.lower() for n in names)
+        ctx.check(P + ':usage-aead:binds-public-key', 'R-seq', 's2k_usage_aead serialises the public key (its `pub_key` parameter) into the associated data on EVERY path to Ok, for every key version, and derives through HKDF', ok,
                   function=bb.path, table=sorted(set(n.split('::')[-1] for n in names))[:20])
 
 
